@@ -43,11 +43,16 @@ func newEngine(p *Program) *Engine {
 			t := x.heapGet(st, "ghost.spawned", SInt)
 			return []Val{{Typ: types.Typ[types.Int], T: x.intFromMath(t)}}
 		},
+		"ghostNow": func(x *Exec, st *State, e *ast.CallExpr) []Val {
+			t := x.heapGet(st, "ghost.now", SInt)
+			return []Val{{Typ: types.Typ[types.Int64], T: x.intFromMath(t)}}
+		},
 		"ghostLockDepth": func(x *Exec, st *State, e *ast.CallExpr) []Val {
 			t := x.heapGet(st, "ghost.lockdepth", SInt)
 			return []Val{{Typ: types.Typ[types.Int], T: x.intFromMath(t)}}
 		},
 	}
+	registerGhostIO(e)
 	return e
 }
 
@@ -83,9 +88,15 @@ func VerifyFunc(p *Program, con *Contract) []*FuncResult {
 		}
 		variants = next
 	}
+	modes := []string{con.Ints}
+	if con.Ints == "both" {
+		modes = []string{"bv", "math"}
+	}
 	var out []*FuncResult
-	for _, v := range variants {
-		out = append(out, verifyVariant(p, con, v))
+	for _, mode := range modes {
+		for _, v := range variants {
+			out = append(out, verifyVariant(p, con, v, mode, len(modes) > 1))
+		}
 	}
 	return out
 }
@@ -95,10 +106,10 @@ type enumChoice struct {
 	Val  int64
 }
 
-func verifyVariant(p *Program, con *Contract, choice []enumChoice) (res *FuncResult) {
+func verifyVariant(p *Program, con *Contract, choice []enumChoice, mode string, tagMode bool) (res *FuncResult) {
 	eng := newEngine(p)
 	c := NewCtx()
-	x := &Exec{eng: eng, c: c, mode: con.Ints, con: con, pkg: con.Pkg.Types, info: con.Pkg.TypesInfo, key: con.Key,
+	x := &Exec{eng: eng, c: c, mode: mode, con: con, pkg: con.Pkg.Types, info: con.Pkg.TypesInfo, key: con.Key,
 		counters: map[string]int{}, boxed: map[types.Object]bool{}, placehold: map[string]Val{}, assumed: map[string]bool{}, abstract: map[string]bool{},
 		loopOrd: map[ast.Stmt]int{}, rangeFacts: map[int]bool{}, callCount: map[string]int{}, specs: map[string]*specInfo{}, globalInit: map[string]bool{}}
 	res = &FuncResult{Key: con.Key, Contract: con, Ctx: c, Exec: x}
@@ -106,7 +117,23 @@ func verifyVariant(p *Program, con *Contract, choice []enumChoice) (res *FuncRes
 	for _, ch := range choice {
 		vparts = append(vparts, fmt.Sprintf("%s=%d", ch.Expr, ch.Val))
 	}
+	if tagMode {
+		vparts = append([]string{"ints=" + mode}, vparts...)
+	}
 	res.Variant = strings.Join(vparts, ",")
+	defer func() {
+		// obligations of a variant carry the variant in their name (after '@')
+		if res.Variant != "" {
+			for _, o := range x.obls {
+				if !strings.Contains(o.Name, "@") {
+					o.Name += "@" + res.Variant
+				}
+			}
+			if res.Obls == nil {
+				res.Obls = x.obls
+			}
+		}
+	}()
 	defer func() {
 		if r := recover(); r != nil {
 			switch e := r.(type) {
